@@ -32,6 +32,9 @@ var directedCases = []directed{
 	{"exemption-kept", g3(none, [][]int{{2}, {1}, {2, 1}}, allUndo), "E F3ok F1err E F2ok"},
 	// same with the multi-lane task listing the failed lane first
 	{"exemption-kept-order", g3(none, [][]int{{2}, {1}, {1, 2}}, allUndo), "E F3ok F1err E F2ok"},
+	// a task waiting (reboot pending, effectively done) in the healthy lane does not make that lane unhealthy
+	{"exemption-with-wait-in-healthy-lane", g3(none, [][]int{{2}, {1}, {1, 2}}, allUndo), "E F1wait F3ok E F2err E W1 E"},
+	{"exemption-with-wait-in-healthy-lane-order", g3(none, [][]int{{2}, {1}, {2, 1}}, allUndo), "E F1wait F3ok E F2err E W1 E"},
 	// chain, failure in the middle: 1 undone, 3 held
 	{"chain-mid-fail", g3([][]int{{}, {1}, {2}}, [][]int{{0}, {0}, {0}}, allUndo), "E F1ok E F2err E"},
 	// in-flight task without undo handler is aborted
